@@ -83,3 +83,59 @@ Definition shift_okb (g : grammar) input orc input' orc' (k n : nat) : bool :=
                      then term_shift_okb input orc input' orc' k n (n_kind nd) else true) (g_nodes g).
 
 Definition accepts (o : outcome) : bool := match o with Parsed _ => true | _ => false end.
+
+(* ---------------------------------------------------------------- Comment-text insertion
+   class: the Comment rule is a single regex terminal and no node changes the whitespace mode *)
+Definition node_mode_free (nd : node) : bool :=
+  match n_ws nd, n_skipws nd with
+  | None, None => negb (n_eolterm nd)
+  | _, _ => false
+  end.
+
+Definition cmt_oid (g : grammar) : option nat :=
+  match g_comments g with
+  | Some cm => match get_node g cm with
+               | Some nd => match n_kind nd with KRegex o => Some o | _ => None end
+               | None => None
+               end
+  | None => None
+  end.
+
+Definition cmt_wf (g : grammar) (c : config) : bool :=
+  (c_skipws c && forallb node_mode_free (g_nodes g)
+   && match cmt_oid g with Some _ => true | None => false end)%bool.
+
+(* inserted text = w1 ++ c ++ w2: whitespace of the set, then a text that does not start with
+   whitespace and that the Comment regex matches exactly at its place in the mutated input, then
+   whitespace of the set *)
+Definition cmt_ins_okb (g : grammar) (cfg : config) (orc' : nat -> nat -> option nat)
+           (a w1 c w2 : list N) : bool :=
+  (subset_ws w1 (c_ws cfg) && subset_ws w2 (c_ws cfg)
+   && match c with c0 :: _ => negb (inw (c_ws cfg) c0) | [] => false end
+   && match cmt_oid g with
+      | Some oc => opt_nat_eqb (orc' oc (length a + length w1)) (Some (length c))
+      | None => false
+      end)%bool.
+
+Definition not_aborted (o : outcome) : Prop := match o with Aborted _ => False | _ => True end.
+
+(* ---------------------------------------------------------------- whole-run tiling (Proofs/PegGap.v) *)
+(* every whitespace set the parser can ever have: the configured one and the rule-level ones *)
+Definition all_ws (g : grammar) (cfg : config) : list N :=
+  c_ws cfg ++ flat_map (fun nd => match n_ws nd with Some w => w | None => [] end) (g_nodes g).
+
+
+(* the top node is Sequence(..., EOF), as textX builds it (decidable, checked per case) *)
+Definition top_eof (g : grammar) : bool :=
+  match get_node g (g_top g) with
+  | Some nd =>
+    match n_kind nd, rev (n_kids nd) with
+    | KSeq, c :: _ => match get_node g c with
+                      | Some ndc => match n_kind ndc with KEOF => true | _ => false end
+                      | None => false
+                      end
+    | _, _ => false
+    end
+  | None => false
+  end.
+
